@@ -81,6 +81,7 @@ def scenario(big: bool = False) -> Any:
         "burst_at": st.sampled_from([0.0, 0.0, 0.3, 0.45]),
         "burst_timeout": st.sampled_from([None, None, None, 0.3, "0.3"]),
         "ack_type": st.sampled_from(["when_saved", "when_saved", "when_executed", "when_received"]),
+        "eager_tasks": st.sampled_from([False, False, False, True]),
         "msgs": st.lists(msg, min_size=0, max_size=30),
         "stop": cm.times(120), "has_stop": st.sampled_from([False, False, False, True]),
         "save_latency": st.sampled_from([0.0, 0.0, 0.1]),
